@@ -38,4 +38,14 @@ def jobs():
                           timeout=900, est_gb=3,
                           desc="empty %s through coap_dispatch, queue: %s: NSTART slot freed exactly when a Confirmable in flight completes" % (tn.upper(), NODES[node]),
                           bounds={"type": tn, "queue": NODES[node]}))
+    # retransmission and give-up keep the NSTART bookkeeping exact (same harness as C06-S2: con_active unchanged by a
+    # retransmission, one slot freed by a give-up)
+    import copy
+    from jobs import C06
+    for j in C06.jobs():
+        if j.name.startswith("S2-retransmit"):
+            j2 = copy.deepcopy(j)
+            j2.name = "S4-retransmit" + j.name[len("S2-retransmit"):]
+            j2.group = "S4-retransmit"
+            js.append(j2)
     return js
